@@ -39,6 +39,8 @@ def chr_of(n):
 class SText(Sym):
     """kind 'str': elements are opaque Chars; kind 'bytes': ints in 0..255."""
 
+    is_text = True  # the engine recognises texts (this class and the derived ones below) by this flag
+
     def __init__(self, kind, length, name):
         self.kind = kind
         self.length = length
@@ -66,6 +68,11 @@ class SText(Sym):
         """Sum of the widths of the first k characters (str texts)."""
         return mk_int(self.wsum(V._z(k) + V._z(self.offset)))
 
+    def raw(self, zi):
+        """Element zi as a bare z3 term (a Char / an Int), without the side facts `get` assumes — for use under
+        a quantifier (text equality)."""
+        return self.f(zi + V._z(self.offset))
+
     def slice(self, lo, hi):
         t = SText.__new__(SText)
         t.__dict__.update(self.__dict__)
@@ -78,14 +85,18 @@ class SText(Sym):
 
 
 class TextShape(S.Shape):
-    def __init__(self, kind):
+    def __init__(self, kind, monotone_widths=True):
+        """monotone_widths=False: leave out the quantified monotonicity fact about the width prefix sums — for
+        contracts that speak about offsets and contents only (C10); their failing obligations then come back
+        `sat` with a model instead of `unknown`."""
         self.kind = kind
+        self.monotone_widths = monotone_widths
 
     def fresh(self, st, hint):
         n = st.fresh_int(hint + "_len")
         st.assume(n.e >= 0)
         t = SText(self.kind, n, st.fresh_name(hint))
-        if self.kind == "str":
+        if self.kind == "str" and self.monotone_widths:
             # widths are >= 0, so the prefix sums are monotone (a consequence of the defining equation,
             # stated once as a quantified fact because its proof would need induction)
             i, j = z3.Ints(f"{t.name}$i {t.name}$j")
@@ -109,3 +120,323 @@ def concretize_text(model, t, max_len=16):
             w = model.eval(_WIDTH(c), model_completion=True).as_long()
             out.append({0: "́", 1: "a", 2: "中"}.get(w, "a"))
     return bytes(out) if t.kind == "bytes" else "".join(out)
+
+
+# ---------------------------------------------------------------------------------------------
+# Derived texts: concatenation, slices of derived texts, constants, repetition (added for C10, the Edit
+# widget's `text[:pos] + ch + text[pos:]`).
+#
+# A derived text has no uninterpreted function of its own: element k and the width prefix sum are *terms*
+# over the texts it was built from (an if-then-else on the index), so every obligation stays quantifier
+# free.  Semantics are CPython's for str/bytes of equal kind:
+#   (a + b)[k]  = a[k] if k < len(a) else b[k - len(a)]          len(a + b) = len(a) + len(b)
+#   (c * n)     = n copies of the one-element text c, "" for n <= 0
+#   t[lo:hi]    = the view of hi - lo elements starting at lo (after slice.indices normalisation, done by the caller)
+# cross-checked against the interpreter on concrete values by `xcheck_derived_texts()` below, which builds the
+# same terms from concrete operands, evaluates them with z3 and compares with Python's own result.
+
+
+class _Derived(SText):
+    def __init__(self, kind, length):
+        self.kind = kind
+        self.length = length
+
+    def __getattr__(self, name):
+        if name in ("f", "wsum", "offset", "name"):
+            raise Unsupported(f"'{name}' of a derived text (concatenation / constant): only length, elements, widths and slices are modelled")
+        raise AttributeError(name)
+
+    def slice(self, lo, hi):
+        return SView(self, lo, V.imax(hi - lo, 0))
+
+    def __repr__(self):
+        return f"{type(self).__name__}<{self.kind}>(len={self.length!r})"
+
+
+class SView(_Derived):
+    def __init__(self, base, lo, length):
+        super().__init__(base.kind, length)
+        self.base, self.lo = base, lo
+
+    def get(self, i):
+        return self.base.get(self.lo + i)
+
+    def W(self, k):
+        return self.base.W(self.lo + k)
+
+    def raw(self, zi):
+        return self.base.raw(V._z(self.lo) + zi)
+
+
+class SConcat(_Derived):
+    def __init__(self, a, b):
+        super().__init__(a.kind, a.length + b.length)
+        self.a, self.b = a, b
+
+    def get(self, i):
+        la = self.a.length
+        return V.ite(V._cmp("<", i, la), self.a.get(i), self.b.get(i - la))
+
+    def W(self, k):
+        a, b = self.a, self.b
+        la = a.length
+        return V.ite(V._cmp("<=", k, la), a.W(k) - a.W(0), a.W(la) - a.W(0) + b.W(k - la) - b.W(0))
+
+    def raw(self, zi):
+        la = V._z(self.a.length)
+        return z3.If(zi < la, self.a.raw(zi), self.b.raw(zi - la))
+
+
+class SConst(_Derived):
+    """A literal str / bytes value as a text: characters are the individuals `chr(ord(c))`."""
+
+    def __init__(self, value):
+        super().__init__("str" if isinstance(value, str) else "bytes", len(value))
+        self.value = value
+
+    def _elem(self, j):
+        if self.kind == "bytes":
+            return self.value[j]
+        return chr_of(ord(self.value[j]))
+
+    def get(self, i):
+        n = len(self.value)
+        if n == 0:
+            return 0 if self.kind == "bytes" else chr_of(0)
+        if isinstance(i, int):
+            return self._elem(min(max(i, 0), n - 1))
+        r = self._elem(n - 1)
+        for j in range(n - 2, -1, -1):
+            r = V.ite(V._cmp("<=", i, j), self._elem(j), r)
+        return r
+
+    def raw(self, zi):
+        n = len(self.value)
+
+        def el(j):
+            e = self._elem(j)  # chr_of asserts ORD(CHR(k)) == k as a ground fact (distinct literals stay distinct)
+            return e.e if isinstance(e, SOpaque) else z3.IntVal(e)
+
+        if n == 0:
+            return el0(self.kind)
+        r = el(n - 1)
+        for j in range(n - 2, -1, -1):
+            r = z3.If(zi <= j, el(j), r)
+        return r
+
+    def W(self, k):
+        if self.kind != "str":
+            raise Unsupported("width of a bytes constant")
+        n = len(self.value)
+        sums = [0]
+        for j in range(n):
+            sums.append(sums[-1] + char_width(chr_of(ord(self.value[j]))))
+        if isinstance(k, int):
+            return sums[min(max(k, 0), n)]
+        r = sums[n]
+        for j in range(n - 1, -1, -1):
+            r = V.ite(V._cmp("<=", k, j), sums[j], r)
+        return r
+
+
+class SRepeat(_Derived):
+    def __init__(self, unit, n):
+        if not (isinstance(unit.length, int) and unit.length == 1):
+            raise Unsupported("repetition of a text that is not a single element")
+        super().__init__(unit.kind, V.imax(n, 0))
+        self.unit = unit
+
+    def get(self, i):
+        return self.unit.get(0)
+
+    def W(self, k):
+        return k * char_width(self.unit.get(0))
+
+    def raw(self, zi):
+        return self.unit.raw(z3.IntVal(0))
+
+
+def el0(kind):
+    return z3.IntVal(0) if kind == "bytes" else _CHR(z3.IntVal(0))
+
+
+def as_text(v):
+    """An SText for a str / bytes literal; SText values unchanged; None for anything else."""
+    if isinstance(v, SText):
+        return v
+    if isinstance(v, (str, bytes)):
+        return SConst(v)
+    return None
+
+
+def text_concat(a, b):
+    return SConcat(a, b)
+
+
+def elem_eq(x, y):
+    if isinstance(x, SOpaque) or isinstance(y, SOpaque):
+        return x == y
+    return V._cmp("==", x, y) if (V.is_sym(x) or V.is_sym(y)) else x == y
+
+
+def text_eq(a, b):
+    """a == b for two texts (same kind, same length, equal elements).  Dual use: plain str/bytes natively.
+    As a goal the element-wise part is a universally quantified formula (z3 Skolemises its negation); a
+    constant operand is compared position by position (no quantifier)."""
+    if not isinstance(a, SText) and not isinstance(b, SText):
+        return a == b
+    a, b = as_text(a), as_text(b)
+    if a is None or b is None or a.kind != b.kind:
+        return False
+    if a is b:
+        return True
+    la, lb = a.length, b.length
+    if isinstance(la, int) and isinstance(lb, int):
+        if la != lb:
+            return False
+        return V.both(True, *[elem_eq(a.get(j), b.get(j)) for j in range(la)])
+    for x, y in ((a, b), (b, a)):
+        if isinstance(x.length, int):
+            return V.both(V._cmp("==", y.length, x.length), *[elem_eq(x.get(j), y.get(j)) for j in range(x.length)])
+    st = cur()
+    j = z3.Int(st.fresh_name("q"))
+    same_elems = z3.simplify(a.raw(j) == b.raw(j))
+    if z3.is_true(same_elems):
+        # the two element terms are the same term (texts built the same way from the same parts): no quantifier needed
+        return V._cmp("==", la, lb)
+    return V.both(V._cmp("==", la, lb), mk_bool(z3.ForAll([j], z3.Implies(z3.And(0 <= j, j < V._z(la)), a.raw(j) == b.raw(j)))))
+
+
+def text_has(t, elem):
+    """`elem in t` for a one-element needle: some position of t holds that element."""
+    st = cur()
+    j = z3.Int(st.fresh_name("q"))
+    e = elem.e if isinstance(elem, SOpaque) else V._z(elem)
+    return mk_bool(z3.Exists([j], z3.And(0 <= j, j < V._z(t.length), t.raw(j) == e)))
+
+
+_HAS_SURR = z3.Function("Text.has_lone_surrogate", z3.IntSort(), z3.IntSort(), z3.IntSort(), z3.BoolSort())
+
+
+def utf8_encoded(st, t):
+    """Assumed model of `s.encode("utf-8")` for a base str text s — returns (bytes text, raises: Bool):
+      * raises UnicodeEncodeError exactly when s holds a lone surrogate (an uninterpreted predicate of s);
+      * otherwise a bytes text, the same one every time for the same s, with len(s) <= len(b) <= 4 * len(s), and —
+        if s is not empty — a first byte that is not a UTF-8 continuation byte (10xxxxxx).
+    Cross-checked against CPython by `xcheck_utf8_encode()`."""
+    if isinstance(t, _Derived):
+        raise Unsupported("utf-8 encoding of a derived text")
+    cache = st.ghost.setdefault("utf8_of", {})
+    key = (t.name, str(V._z(t.offset)), str(V._z(t.length)))
+    if key not in cache:
+        n = st.fresh_int(f"{t.name}$utf8_len")
+        b = SText("bytes", n, st.fresh_name(f"{t.name}$utf8"))
+        ln = V._z(t.length)
+        b0 = b.f(z3.IntVal(0))
+        st.assume(z3.And(n.e >= ln, n.e <= 4 * ln, z3.Implies(ln > 0, z3.And(b0 >= 0, b0 <= 255, z3.Not(z3.And(b0 >= 0x80, b0 <= 0xBF))))))
+        bad = mk_bool(_HAS_SURR(z3.Int(f"{t.name}$id"), V._z(t.offset), ln))
+        cache[key] = (b, bad)
+    return cache[key]
+
+
+CHAR_UPPER = z3.Function("Char.upper_id", CHAR, z3.IntSort())
+
+
+def upper_of_char_text(st, t):
+    """Assumed model of `s.upper()` for a str s of exactly one character c (proved on the path; Unsupported
+    otherwise): some str that is a function of c alone — the same text every time, identified by CHAR_UPPER(c);
+    nothing is assumed about its length or contents (e.g. 'ß'.upper() == 'SS')."""
+    n1 = t.length
+    if not (isinstance(n1, int) and n1 == 1):
+        r0, _m = st._check(V._z(n1) != 1, st.cfg.branch_timeout_ms)
+        if r0 != z3.unsat:
+            raise Unsupported("str.upper() of a text whose length is not known to be 1")
+    c = t.get(0)
+    cache = st.ghost.setdefault("upper_of", {})
+    key = str(c.e)
+    if key not in cache:
+        n = st.fresh_int("upper_len")
+        u = SText("str", n, st.fresh_name("upper"))
+        st.assume(z3.And(n.e >= 0, z3.Int(f"{u.name}$id") == CHAR_UPPER(c.e)))
+        cache[key] = u
+    return cache[key]
+
+
+def xcheck_utf8_encode():
+    """CPython agrees with the assumed facts of `utf8_encoded` on a sample of strings (all planes, empty, surrogates)."""
+    bad = []
+    for s in ["", "a", "é", "中", "\U0001f600", "a中é", "\x00", "\x7f\x80", "\ud800", "a\udfff", "\uffff\U00010000"]:
+        surr = any(0xD800 <= ord(c) <= 0xDFFF for c in s)
+        try:
+            b = s.encode("utf-8")
+        except UnicodeEncodeError:
+            if not surr:
+                bad.append((s, "raised"))
+            continue
+        if surr or not (len(s) <= len(b) <= 4 * len(s)) or (s and 0x80 <= b[0] <= 0xBF):
+            bad.append((s, b))
+    return (not bad, f"mismatches {bad}" if bad else "str.encode('utf-8') agrees with the assumed model on the sample")
+
+
+def xcheck_derived_texts():
+    """Concrete cross-check of the derived-text terms against CPython: for small str and bytes operands build
+    a + b, a[lo:hi], (a + b)[lo:hi] + c, c1 * n with the classes above, read every element back through z3 and
+    compare with Python's own result.  Returns (ok, detail)."""
+    from .engine import Config, Explorer, State
+
+    ex = Explorer(Config())
+    st = State(ex, [])
+    V._current.append(st) if isinstance(getattr(V, "_current", None), list) else None
+    bad = []
+    try:
+        def elems(t):
+            n = t.length if isinstance(t.length, int) else z3.simplify(V._z(t.length)).as_long()
+            out = []
+            for i in range(n):
+                e = t.get(z3_int(i))
+                if t.kind == "bytes":
+                    out.append(z3.simplify(V._z(e)).as_long())
+                else:
+                    out.append(z3.simplify(_ORD(e.e)))
+            return n, out
+
+        def z3_int(i):
+            return SInt(z3.IntVal(i))
+
+        def want(v):
+            return list(v) if isinstance(v, bytes) else [ord(c) for c in v]
+
+        samples = [("", "a", "bc"), ("ab", "", "c"), ("xy", "z", ""), (b"", b"\x80", b"ab"), (b"\xe4\xb8", b"\xad", b"q")]
+        for a, b, c in samples:
+            for lo in range(0, 4):
+                for hi in range(0, 4):
+                    py = (a + b)[lo:hi] + c
+                    n0 = len(a + b)
+                    l2, h2, _ = slice(lo, hi).indices(n0)
+                    t = SConcat(SConcat(SConst(a), SConst(b)).slice(l2, max(l2, h2)), SConst(c))
+                    st2 = st
+                    st2.solver.push()
+                    n, got = elems(t)
+                    # characters: ORD(CHR(k)) == k is assumed by chr_of, so simplify under the solver's facts
+                    if t.kind == "str":
+                        vals = []
+                        for g in got:
+                            s = z3.Solver()
+                            s.add(*st2.pc)
+                            k = z3.Int("k")
+                            s.add(k == g)
+                            assert s.check() == z3.sat
+                            vals.append(s.model().eval(k).as_long())
+                        got = vals
+                    st2.solver.pop()
+                    if n != len(py) or got != want(py):
+                        bad.append((a, b, c, lo, hi, got, want(py)))
+        for c1, n in ((" ", 3), (" ", 0), (" ", -2), (b"0", 2)):
+            t = SRepeat(SConst(c1), n)
+            ln = t.length if isinstance(t.length, int) else z3.simplify(V._z(t.length)).as_long()
+            if ln != len(c1 * n):
+                bad.append(("repeat", c1, n, ln))
+    finally:
+        if isinstance(getattr(V, "_current", None), list) and V._current and V._current[-1] is st:
+            V._current.pop()
+    return (not bad, f"{len(bad)} mismatches: {bad[:3]}" if bad else "derived text terms agree with CPython on the sample")
